@@ -164,6 +164,57 @@ func progs() []prog {
 				wg.Wait()
 			}, Observe: obs(func() string { return fmt.Sprint(got) })}
 		}},
+		{name: "non-blocking send (select with default) racing a receiver", outcomes: 2, sc: func() explore.Exec {
+			sent, got := false, -1
+			return explore.Exec{Body: func() {
+				c := make(chan int)
+				done := make(chan struct{})
+				mc.Go(func() {
+					got, _ = mc.Recv2((<-chan int)(c))
+					mc.Close(done)
+				})
+				sel := mc.NewSelect(true)
+				mc.SelAddSend(sel, (chan<- int)(c), 7)
+				sent = sel.Wait() == 0
+				if !sent {
+					mc.Close(c) // the value was dropped: release the receiver
+				}
+				mc.Recv2((<-chan struct{})(done))
+			}, Observe: obs(func() string { return fmt.Sprint(sent, got) })}
+		}},
+		{name: "select with two ready cases", outcomes: 2, sc: func() explore.Exec {
+			which := -1
+			return explore.Exec{Body: func() {
+				a := make(chan int, 1)
+				b := make(chan int, 1)
+				mc.Send((chan<- int)(a), 1)
+				mc.Send((chan<- int)(b), 2)
+				sel := mc.NewSelect(false)
+				mc.SelAddRecv(sel, (<-chan int)(a))
+				mc.SelAddRecv(sel, (<-chan int)(b))
+				which = sel.Wait()
+			}, Observe: obs(func() string { return fmt.Sprint(which) })}
+		}},
+		{name: "blocking select woken by one of two senders", outcomes: 2, sc: func() explore.Exec {
+			got := 0
+			return explore.Exec{Body: func() {
+				a := make(chan int)
+				b := make(chan int, 1)
+				mc.Go(func() { mc.Send((chan<- int)(a), 1) })
+				mc.Go(func() { mc.Send((chan<- int)(b), 2) })
+				sel := mc.NewSelect(false)
+				ra := mc.SelAddRecv(sel, (<-chan int)(a))
+				rb := mc.SelAddRecv(sel, (<-chan int)(b))
+				if sel.Wait() == 0 {
+					got, _ = ra.Get()
+					// release the other sender
+					mc.Recv((<-chan int)(b))
+				} else {
+					got, _ = rb.Get()
+					mc.Recv((<-chan int)(a))
+				}
+			}, Observe: obs(func() string { return fmt.Sprint(got) })}
+		}},
 		{name: "message-passing publishes data (no race)", outcomes: 1, sc: func() explore.Exec {
 			x := new(int)
 			return explore.Exec{Body: func() {
